@@ -1090,3 +1090,15 @@ mod mapping_tests {
         assert_eq!(base, Mapping::from_str("=foo: bar").unwrap());
     }
 }
+
+#[cfg(reclass_rs_verif)]
+impl Mapping {
+    /// Verification hook: the constant and pending-override key sets.
+    #[must_use]
+    pub fn verif_flags(&self) -> (Vec<Value>, Vec<Value>) {
+        (
+            self.const_keys.iter().cloned().collect(),
+            self.override_keys.iter().cloned().collect(),
+        )
+    }
+}
